@@ -133,4 +133,35 @@ Theorem C04_parser_portability_no_panic :
   ps_err pass s = None -> ps_err pass (consolidate_portability_directives pass s) = None.
 Proof. exact consolidate_portability_directives_no_panic. Qed.
 
+(* the search model: the main loop of find_optimal_solution pops at most iteration_max + 2 nodes; the supplied fuel is never
+   exhausted, for any child solver *)
+From PasfmtVerif Require Import Model.WrapContexts Model.WrapSearch Model.WrapFormat Proofs.WrapSearchProofs Proofs.WrapSearchDeepProofs.
+Theorem C04_search_main_loop_bounded :
+  forall (W : wsettings) (lvs : list lview)
+    (child_solve : sst -> lview -> N * N -> first_decision -> sst * option solution)
+    (lv : lview) (fuel : nat) (h : heap) (iter : N) (best : list N) 
+    (st : sst),
+  (N.to_nat iter <= N.to_nat (w_iter W) + 1)%nat ->
+  (N.to_nat (w_iter W) + 2 < fuel + N.to_nat iter)%nat ->
+  snd (main_loop W lvs child_solve lv fuel h iter best st) <> SR_fuel.
+Proof. exact main_loop_no_fuel. Qed.
+
+Theorem C04_search_terminates_within_iteration_limit :
+  forall (W : wsettings) (lvs : list lview)
+    (child_solve : sst -> lview -> N * N -> first_decision -> sst * option solution)
+    (lv : lview) (st : sst) (ws : N * N) (first : first_decision),
+  snd (find_optimal_solution W lvs (main_fuel W) child_solve lv st ws first) <> SR_fuel.
+Proof. exact find_optimal_solution_no_fuel. Qed.
+
+Theorem C04_search_walk_bounded :
+  forall (W : wsettings) (lvs : list lview)
+    (child_solve : sst -> lview -> N * N -> first_decision -> sst * option solution)
+    (lv : lview) (f1 f2 : nat) (nd : node) (indiff : option node) 
+    (best : list N) (st : sst),
+  (len nd < f2)%nat ->
+  (base nd indiff < f1)%nat ->
+  (len nd <= base nd indiff)%nat ->
+  fst (fst (walk W lvs child_solve lv f1 f2 nd indiff best st)) <> W_fuel.
+Proof. exact walk_no_fuel. Qed.
+
 
